@@ -393,7 +393,12 @@ func (g *lgen) gsubSubtable(typ int, idx int) gtab.Subtable {
 		}
 		return sub
 	case 4:
-		n := rapid.IntRange(1, 5).Draw(t, lab+"NLig")
+		// mostly small; sometimes many ligatures spread over few first glyphs
+		// (their order within a set is significant)
+		n := rapid.OneOf(rapid.IntRange(1, 5), rapid.IntRange(1, 5), rapid.IntRange(6, 40)).Draw(t, lab+"NLig")
+		if n > 12 {
+			g.feat["ligatures>12"] = true
+		}
 		byFirst := map[glyph.ID][]gtab.Ligature{}
 		var firsts []glyph.ID
 		for i := 0; i < n; i++ {
